@@ -358,7 +358,11 @@ func (e *env) snapshot() (snap, error) {
 			s.entries = append(s.entries, filepath.Base(rel)+":"+hex.EncodeToString(h[:]))
 			return nil
 		}
-		s.outside = append(s.outside, rel+" ("+d.Type().String()+")")
+		kind := "file"
+		if !d.Type().IsRegular() {
+			kind = d.Type().String()
+		}
+		s.outside = append(s.outside, rel+" ("+kind+")")
 		return nil
 	})
 	h := sha256.New()
@@ -1029,6 +1033,11 @@ func (a *alphabet) corruptions(entry *bundleSpec) ([]corruption, error) {
 	return list, nil
 }
 
+var (
+	notJudgedMu sync.Mutex
+	notJudged   []string
+)
+
 func corrupt(r *hx.Run, a *alphabet) {
 	names := []string{"base+delta-fresh"}
 	if r.Thorough() {
@@ -1039,6 +1048,10 @@ func corrupt(r *hx.Run, a *alphabet) {
 		entry := a.bundleByName(n)
 		list, err := a.corruptions(entry)
 		if err != nil {
+			if r.Violations() > 0 { // the history family already shows why nothing can be stored
+				cs.add("corrupt:skipped(the entry to corrupt could not be stored)")
+				return
+			}
 			r.Infra("corruption family: %v", err)
 			return
 		}
@@ -1050,6 +1063,11 @@ func corrupt(r *hx.Run, a *alphabet) {
 			report(r, vs, corruptCase{"corrupt", entry.Name, c.Label, c.Data})
 			if class != "" {
 				cs.add("corrupt:" + class)
+				if strings.Contains(class, "not judged") {
+					notJudgedMu.Lock()
+					notJudged = append(notJudged, entry.Name+" / "+c.Label+" -> "+class)
+					notJudgedMu.Unlock()
+				}
 				if strings.HasPrefix(class, "bundle-") || strings.HasPrefix(class, "miss") || strings.Contains(class, "still well-formed") {
 					r.Nontrivial("c|" + entry.Name + "|" + c.Label)
 				}
@@ -1063,6 +1081,11 @@ func corrupt(r *hx.Run, a *alphabet) {
 		}, nil)
 	}
 	r.Extra["corruptions_per_entry"] = sizes
+	sort.Strings(notJudged)
+	if len(notJudged) > 60 {
+		notJudged = append(notJudged[:60], "...")
+	}
+	r.Extra["corruptions_not_judged"] = notJudged
 }
 
 // ---------------------------------------------------------------- replay
@@ -1149,9 +1172,10 @@ func main() {
 
 	// non-vacuity: every URL returned every fresh bundle faithfully at least once;
 	// expired entries were seen as misses; the unmodified file was read back
+	// (only when nothing was violated: a violation explains lost controls and must decide the exit code)
 	for _, u := range a.urls {
 		for _, b := range []string{"base-fresh", "base+delta-fresh"} {
-			if _, ok := controls.Load(u.Name + "|" + b); !ok {
+			if _, ok := controls.Load(u.Name + "|" + b); !ok && r.Violations() == 0 {
 				r.Infra("positive control failed: bundle %s stored under URL %q was never returned", b, u.Name)
 			}
 		}
